@@ -375,7 +375,15 @@ def check_turn_case(case, sess: Session):
                 return r_
 
             before = {s: len(env.records(s)) for s in ("t1.jsonl", "t2.jsonl", "t3.jsonl", "t3_plan.jsonl", "t4.jsonl", "apply.jsonl", "turn.jsonl", "scheduler.jsonl", "health.jsonl")}
-            with patched(core, "_should_yield", sy), patched(orch, "t1_propagate", t1w):
+            t2cap = {}
+            real_t2 = orch.t2_semantic
+
+            def t2w(ctx, state, text, t1, _c=t2cap):
+                r_ = real_t2(ctx, state, text, t1)
+                _c["t2"] = r_
+                return r_
+
+            with patched(core, "_should_yield", sy), patched(orch, "t1_propagate", t1w), patched(orch, "t2_semantic", t2w):
                 r = env.run(t["agent"], t["text"], ti + 1, plan=planner, vclock=VClock(pc_step=t["pc_step"], pc_script=([0.0] * t["pc_jump"] + [10.0]) if t.get("pc_jump") else None))
             tcase = {"cfg": case["cfg"], "turn": ti, "turns": case["turns"][:ti + 1], "world": case["world"]}
             sess.evaluations += 1
@@ -414,6 +422,23 @@ def check_turn_case(case, sess: Session):
                 if b.get("t2_k") is not None and t2r.get("k_returned", 0) > b["t2_k"]:
                     bound_hit = True
                     sess.count("turns_where_t2_slice_cap_bound")
+            # everything the retrieval stage derives from its hits (the residual graph nudges) comes from the hits inside the
+            # slice budget, not from the ones beyond it
+            if b.get("t2_k") is not None and t2cap.get("t2") is not None:
+                t2o = t2cap["t2"]
+                used_texts = [(getattr(u, "text", "") or "").lower() for u in list(t2o.retrieved)[:max(0, int(b["t2_k"]))]]
+                labs = {}
+                for gid_, g_ in case["world"]["graphs"].items():
+                    for n_ in g_["nodes"]:
+                        if n_[1]:
+                            labs.setdefault(n_[0], set()).add(str(n_[1]).lower())
+                resid = [d.get("id") for d in (getattr(t2o, "graph_deltas_residual", None) or [])]
+                if resid:
+                    sess.count("residual_nudges_checked_against_the_slice_budget", len(resid))
+                for nid_ in resid:
+                    if nid_ in labs and not any(lb in t_ for lb in labs[nid_] for t_ in used_texts):
+                        sess.violation("budget:t2-residual-from-hits-beyond-the-slice-budget", tcase, {"node": nid_, "labels": sorted(labs[nid_]), "t2_k": b["t2_k"], "used": used_texts[:4]})
+                        break
             for p, is_real, slice_caps, _ in plans:
                 nops = len(getattr(p, "ops", []) or [])
                 if is_real:
